@@ -52,7 +52,9 @@ SN_ALPHA = ['train_nas_only', 'train_net_only', 'train_net_and_nas', 'temperatur
 # 'pit-trailing': the same TCN whose output passes through an activation after the last layer (the
 # head is output-connected although it is not the node feeding the output)
 # 'mps-layer-1d': a Conv1d network (MPSConv1d forwards the options on its own)
-MODELS = {'pit': PIT_ALPHA, 'pit-trailing': PIT_ALPHA, 'mps-layer': MPS_ALPHA,
+# 'pit-dense-head': the output is cat(cat(cat(fc, fq), fb), fz) - every classifier is frozen
+MODELS = {'pit': PIT_ALPHA, 'pit-trailing': PIT_ALPHA, 'pit-dense-head': PIT_ALPHA,
+          'mps-layer': MPS_ALPHA,
           'mps-channel': MPS_ALPHA, 'mps-layer-1d': MPS_ALPHA, 'supernet': SN_ALPHA}
 
 
@@ -72,7 +74,7 @@ def worker_setup(ctx):
 # ------------------------------------------------------------------------------------------------
 # model construction (fresh per replay)
 # ------------------------------------------------------------------------------------------------
-def pit_program(trailing=False):
+def pit_program(trailing=False, dense_head=False):
     ops = [
         {'op': 'conv', 'name': 'c1', 'src': 'x0', 'out': 'a', 'cin': 2, 'cout': 4, 'k': 3, 'd': 1,
          's': 2, 'bias': True, 'pad': 'causal', 'dw': False},
@@ -94,6 +96,14 @@ def pit_program(trailing=False):
     if trailing:
         ops.append({'op': 'act', 'kind': 'sigmoid', 'src': 'o', 'out': 'o2'})
         out = 'o2'
+    if dense_head:
+        # the output is a nest of concats of four classifiers: all of them are tied to the output
+        for i, (nm, w) in enumerate((('fq', 2), ('fb', 1), ('fz', 2))):
+            ops.append({'op': 'lin', 'name': nm, 'src': 'f', 'out': 'o_' + nm, 'fin': 3, 'fout': w,
+                        'bias': True})
+            ops.append({'op': 'cat', 'srcs': [out, 'o_' + nm], 'dim': 1, 'axis': 1,
+                        'out': 'k%d' % i})
+            out = 'k%d' % i
     return {'family': '1d', 'inputs': [[2, 12]], 'ops': ops, 'out': out, 'excluded': [],
             'features': ['tcn'], 'traits': []}
 
@@ -101,7 +111,7 @@ def pit_program(trailing=False):
 def build_model(kind):
     from plinio import cost as pc
     if kind.startswith('pit'):
-        prog = pit_program(trailing=kind == 'pit-trailing')
+        prog = pit_program(trailing=kind == 'pit-trailing', dense_head=kind == 'pit-dense-head')
         model, nas, xs = pitlib.convert_pit(prog, 1, cost=pc.params, train_mode=True)
         x = pitgen.example_inputs(prog, 2, 3)
         return nas, x, prog
